@@ -205,3 +205,91 @@ def _treesim_check(prop: str, focus: str, quick_seeds: int, thorough_seeds: int,
 
 CHECKS["C16"] = _treesim_check("C16", "C16", 96, 4000, 90, 1800)
 CHECKS["C17"] = _treesim_check("C17", "C17", 96, 4000, 90, 1800)
+
+
+# ------------------------------------------------------------------------- choicesim (+ solver monitors) (C12, C14)
+
+ASSUME_CHOICE = [
+    "randomness as seen by isla.* is a seeded PRNG owned by the simulator, driven by uniform and adversarial strategies (always_first, always_last, alternate, low/high biased)",
+    "Oracle-G (own grammar model) is correct; input trees come from the harness's own random derivations, pruned back to open leaves with ids kept",
+    "sampling, not enumeration",
+]
+
+
+def _choice_summary(focus: str):
+    solver_part = _solversim_summary(focus)
+
+    def summarize(lines):
+        ch = [l for l in lines if l.get("engine") == "choicesim"]
+        sv = [l for l in lines if l.get("engine") == "solversim"]
+        counters: Dict[str, int] = {}
+        strategies: Dict[str, int] = {}
+        cases = 0
+        draws = 0
+        digests = set()
+        inconclusive: Dict[str, int] = {}
+        samples = []
+        for l in ch:
+            r = l["record"]
+            cases += r.get("cases", 0)
+            draws += r.get("prng_draws", 0)
+            for k, v in (r.get("counters") or {}).items():
+                counters[k] = counters.get(k, 0) + v
+            for k, v in (r.get("strategies") or {}).items():
+                strategies[k] = strategies.get(k, 0) + v
+            for inc in r.get("inconclusive") or []:
+                inconclusive[inc] = inconclusive.get(inc, 0) + 1
+            if r.get("cases", 0):
+                digests.add(r.get("digest"))
+            if len(samples) < 3 and "plan" in l:
+                samples.append({"run_seed": l.get("run_seed"), "grammar": l["plan"]["grammar"], "cases": l["plan"]["ops"][:6]})
+        s = solver_part(sv) if sv else {}
+        judged = {
+            "C12": counters.get("expand_plain", 0) + counters.get("expand_cov", 0) + counters.get("mutate", 0),
+            "C14": counters.get("fixed_length_built", 0) + counters.get("count_completion", 0),
+        }[focus]
+        return {
+            "evaluations": cases + len(sv),
+            "distinct_nontrivial": len(digests) + s.get("distinct_nontrivial", 0),
+            "rule": ("one evaluation = one helper call driven directly (choicesim: fuzzer expand_tree on pruned open trees / Mutator.mutate on closed trees / create_fixed_length_tree / count completion, each under its own PRNG strategy and seed) or one simulated solver run whose internal helper calls are checked by seam monitors (solversim). "
+                     "distinct_nontrivial = distinct choicesim runs (digest over all PRNG draw logs of the run's cases, runs with at least one judged case) + distinct solver runs with at least one monitored call."),
+            "samples": samples or s.get("samples") or [{"note": "none"}],
+            "helper_calls_judged_directly": judged,
+            "choicesim_counters": counters,
+            "prng_strategies_used": strategies,
+            "prng_draws": draws,
+            "choicesim_inconclusive": inconclusive,
+            "solver_monitor_counts": s.get("monitor_counts", {}),
+            "solver_runs": len(sv),
+            "solver_faults_fired": s.get("faults_fired", {}),
+            "faults_fired": dict({"prng_strategy_" + k: v for k, v in strategies.items()}, **s.get("faults_fired", {})),
+            "real_components": ["isla.fuzzer", "isla.mutator", "isla.solver.create_fixed_length_tree", "isla.isla_predicates.count", "isla.existential_helpers.insert_tree", "ISLaSolver (monitor stage)"],
+            "stubbed_components": ["random module in isla.* -> SimRandom"] + s.get("stubbed_components", []),
+        }
+
+    return summarize
+
+
+def _choice_check(prop: str, quick, thorough):
+    def run(tier, runs, budget, nproc):
+        q = thorough if tier == "thorough" else quick
+        n_choice, b_choice, n_solver, b_solver, cases = q
+        if runs:
+            n_choice, n_solver = runs, max(8, runs // 4)
+        if budget:
+            b_choice, b_solver = budget * 0.5, budget * 0.5
+        stages = [
+            ("choicesim", {"focus": prop, "cases": cases}, n_choice, b_choice),
+            ("solversim", {"focus": prop}, n_solver, b_solver),
+        ]
+        return driver.run_check(
+            prop, tier, stages, None, 0, 0, wall=240.0, nproc_total=nproc,
+            level_text={"category": "exploration", "assumptions": ASSUME_CHOICE + ASSUME_SOLVERSIM[:2]},
+            summarize=_choice_summary(prop),
+        )
+
+    return run
+
+
+CHECKS["C12"] = _choice_check("C12", (160, 50, 120, 50, 24), (6000, 900, 4000, 900, 40))
+CHECKS["C14"] = _choice_check("C14", (160, 50, 120, 50, 24), (6000, 900, 4000, 900, 40))
